@@ -163,7 +163,12 @@ func c16sameSeq(got []starlark.Value, want []starlark.Value, exact bool) bool {
 			if c16val(got[i]) != c16val(want[i]) {
 				return false
 			}
-		} else if eq, err := starlark.Equal(got[i], want[i]); err != nil || !eq {
+		} else if eq, err := starlark.Equal(got[i], want[i]); err != nil {
+			// too deep for Equal: identical renderings are equal values
+			if c16val(got[i]) != c16val(want[i]) {
+				return false
+			}
+		} else if !eq {
 			return false
 		}
 	}
@@ -474,8 +479,22 @@ func TestVerifC16(t *testing.T) {
 		c16int(0), starlark.String("ab"), starlark.String("ac"), starlark.Tuple{c16int(0), c16int(1)},
 		starlark.Tuple{c16int(0), c16int(2)}, starlark.NewList([]starlark.Value{c16int(0)}), starlark.None,
 	}
-	g.allPairs("nested-mixed", c16seqs(mixAlpha, maxNested), c16tuple, c16tuple)
-	g.allPairs("nested-mixed-list", c16seqs(mixAlpha, maxNested), c16list, c16list)
+	mixLen := maxNested
+	if mixLen > 2 {
+		mixLen = 2
+	}
+	g.allPairs("nested-mixed", c16seqs(mixAlpha, mixLen), c16tuple, c16tuple)
+	g.allPairs("nested-mixed-list", c16seqs(mixAlpha, mixLen), c16list, c16list)
+	for i := 0; i < nRand; i++ {
+		mkr := func() []starlark.Value {
+			r := make([]starlark.Value, rng.Intn(6))
+			for j := range r {
+				r[j] = mixAlpha[rng.Intn(len(mixAlpha))]
+			}
+			return r
+		}
+		g.pair("nested-mixed-random", c16tuple(mkr()), c16tuple(mkr()))
+	}
 
 	// 3. dicts: every assignment of {absent, 1, 2, (0,1)} to the keys; old in key order, new in reverse order
 	keys := []starlark.Value{c16int(1), starlark.String("k"), starlark.Tuple{c16int(0)}, c16int(3)}[:dictKeys]
